@@ -1,5 +1,5 @@
 """Contracts for cases_basic.py (regression protection for pre-existing engine features)."""
-from pyvc.api import BOOL, INT, STR, Dict, List, Loop, Opt, Ref, Set, cls
+from pyvc.api import BOOL, INT, STR, Dict, List, Loop, Opt, Ref, Set, Tuple, cls
 
 from . import cases_basic as M
 from .harness import case
@@ -289,3 +289,48 @@ case(
     ensures={"kept": "result == a.tag"}, canaries={"new": "result == 'new'"},
     gen=lambda rng: {"v": rng.randint(0, 3)}, build=lambda d: {"a": M.STNode(d["v"]), "v": d["v"]},
 )
+
+# ---- per-contract solver order (round 4): `portfolio=[...]` only re-orders, canaries keep the default order -----------------
+case(
+    B + "sum_to", name="portfolio-cvc5", params={"xs": List(INT)}, returns=INT,
+    requires=["all(x >= 0 for x in xs)"],
+    ensures={"nonneg": "result >= 0"},
+    canaries={"positive": "result > 0"},
+    loops={"for x in xs": Loop(index="i", invariants={"nn": "total >= 0"})},
+    locals={"total": INT},
+    portfolio=["cvc5"], first_solver="cvc5",
+    gen=lambda rng: {"xs": [rng.randint(0, 4) for _ in range(rng.randint(0, 4))]},
+)
+
+# ---- `Opt(X) or X` has type X (round 4) --------------------------------------------------------------------------------------
+case(
+    B + "opt_or_default", params={"x": Opt(STR)}, returns=STR,
+    ensures={"none": "implies(x is None, result == '!')", "some": "implies(x is not None and x != '', result == x + '!')", "empty": "implies(x == '', result == '!')"},
+    canaries={"never-bare": "result != '!'", "keeps": "implies(x is not None, result == x + '!!')"},
+    gen=lambda rng: {"x": rng.choice([None, "", "a", "bc"])},
+)
+case(
+    B + "opt_or_len", params={"x": Opt(List(INT)), "d": List(INT)}, returns=INT,
+    ensures={"none": "implies(x is None, result == len(d))", "some": "implies(x is not None and len(x) > 0, result == len(x))"},
+    canaries={"x-wins": "implies(x is not None, result == len(x))"},
+    gen=lambda rng: {"x": rng.choice([None, [], [1], [1, 2]]), "d": [0] * rng.randint(0, 3)},
+)
+
+# ---- python-level list + python-level list with symbolic elements (round 4) -------------------------------------------------
+case(
+    B + "pylist_concat", params={"a": INT, "b": INT, "zs": List(INT)}, returns=Tuple(List(INT), List(INT), Tuple(INT, INT)),
+    ensures={"len": "len(result[0]) == 3 + len(zs)", "head": "result[0][0] == a and result[0][1] == b and result[0][2] == a",
+             "tail": "all(result[0][3 + k] == zs[k] for k in range(len(zs)))", "snd": "result[1] == zs + [b]", "tup": "result[2] == (a, b)"},
+    canaries={"swapped": "result[0][1] == a", "tup-swapped": "result[2] == (b, a)", "short": "len(result[1]) == len(zs)"},
+    gen=lambda rng: {"a": rng.randint(0, 3), "b": rng.randint(4, 6), "zs": ints(rng)},
+)
+
+# ---- Optional parameters are narrowed like locals (round 4, C03 #5) ---------------------------------------------------------
+for _fn in ("opt_param_narrow", "opt_param_narrow_early"):
+    case(
+        B + _fn, params={"d": Dict(STR, INT), "key": Opt(STR)}, returns=INT,
+        requires=["implies(key is not None, key in d)"],
+        ensures={"none": "implies(key is None, result == 0)", "some": "implies(key is not None, result == d[key])"},
+        canaries={"always-zero": "result == 0", "old-key": "implies(key is not None, result == 0)"},
+        gen=lambda rng: (lambda k: {"d": {"a": 1, "b": 2}, "key": k})(rng.choice([None, "a", "b"])),
+    )
